@@ -562,4 +562,303 @@ example : ∃ (m : WMat) (fuel : Nat), (∀ w ∈ m.words, w < W32) ∧ m.words.
     WMat.getTopLeftOnBit m = .ok (some [3, 0]) ∧ WMat.getBottomRightOnBit m = .ok (some [39, 0]) :=
   ⟨⟨40, 1, 2, [8, 128]⟩, 40, by decide, by decide, by decide, by decide, by decide⟩
 
+/-! ### Rotate180 -/
+
+section rotate180
+variable {σ ρ : Type}
+
+
+/-- `b.bits[i], b.bits[j] = b.bits[j], b.bits[i]` inside a loop body -/
+theorem swapC (ws : List Nat) (i j : Nat) {ei ej ei' ej' : Int} (k : List Int → Ctl σ ρ)
+    (h1 : ej = j) (h2 : ei = i) (h3 : ei' = i) (h4 : ej' = j) :
+    tryC (idx (words ws) ej) (fun t1 => tryC (idx (words ws) ei) fun t2 =>
+        tryC (setIdx (words ws) ei' t1) fun t3 => tryC (setIdx t3 ej' t2) k) =
+      match WMat.swapWords ws i j with
+      | .ok ws' => k (words ws')
+      | .error e => .panic e := by
+  subst h1 h2 h3 h4
+  rw [idxC ws j _ rfl]
+  unfold WMat.swapWords wordAt
+  cases hj : ws[j]? with
+  | none =>
+    cases hi : ws[i]? <;> rfl
+  | some b =>
+    simp only []
+    rw [idxC ws i _ rfl]
+    unfold wordAt
+    cases hi : ws[i]? with
+    | none => rfl
+    | some a =>
+      simp only [bind, Except.bind]
+      have hil : i < ws.length := (List.getElem?_eq_some_iff.mp hi).1
+      have hjl : j < ws.length := (List.getElem?_eq_some_iff.mp hj).1
+      rw [setC ws i b _ rfl rfl]
+      simp only [setWord, hil, if_true]
+      rw [setC (ws.set i b) j a _ rfl rfl]
+      simp [setWord, hjl]
+
+theorem realignLoop_length (sh : Nat) : ∀ (rest : List Nat) (prev : Nat), (WMat.realignLoop sh rest prev).length = rest.length + 1 := by
+  intro rest
+  induction rest with
+  | nil => intro prev; rfl
+  | cons w rest ih => intro prev; simp [WMat.realignLoop, ih]
+
+/-- the fused reverse-and-realign loop of one row of `Rotate180` -/
+theorem realign_row_loop (sh offset : Nat) (body : Int → List Int → Ctl (List Int) ρ)
+    (hb : ∀ (j : Nat) (ws : List Nat), 1 ≤ j → body (j : Int) (words ws) =
+      match ws[offset + j]? with
+      | none => .panic oob
+      | some w =>
+        match updWord ws (offset + j - 1) (fun v => v ||| shl32 (Bits.rev32 w) sh) with
+        | .error e => .panic e
+        | .ok ws1 =>
+          match setWord ws1 (offset + j) (Bits.rev32 w >>> (32 - sh)) with
+          | .ok ws2 => .next (words ws2)
+          | .error e => .panic e) :
+    ∀ (rest out : List Nat) (prev : Nat) (T : List Nat) (j0 : Nat), 1 ≤ j0 → out.length + 1 = offset + j0 →
+      loop body 1 rest.length (j0 : Int) (words (out ++ prev :: rest ++ T)) =
+        .next (words (out ++ WMat.realignLoop sh rest prev ++ T)) := by
+  intro rest
+  induction rest with
+  | nil => intro out prev T j0 _ _; simp [loop, WMat.realignLoop]
+  | cons w rest ih =>
+    intro out prev T j0 hj0 hlen
+    rw [List.length_cons, loop_succ, hb j0 _ hj0]
+    have h1 : (out ++ prev :: (w :: rest) ++ T)[offset + j0]? = some w := by
+      rw [← hlen]; simp
+    rw [h1]
+    simp only []
+    have h2 : updWord (out ++ prev :: (w :: rest) ++ T) (offset + j0 - 1) (fun v => v ||| shl32 (Bits.rev32 w) sh) =
+        .ok (out ++ (prev ||| shl32 (Bits.rev32 w) sh) :: (w :: rest) ++ T) := by
+      rw [show offset + j0 - 1 = out.length by omega]
+      simp [updWord]
+    rw [h2]
+    simp only []
+    have h3 : setWord (out ++ (prev ||| shl32 (Bits.rev32 w) sh) :: (w :: rest) ++ T) (offset + j0) (Bits.rev32 w >>> (32 - sh)) =
+        .ok ((out ++ [prev ||| shl32 (Bits.rev32 w) sh]) ++ (Bits.rev32 w >>> (32 - sh)) :: rest ++ T) := by
+      rw [← hlen]
+      simp [setWord]
+    rw [h3]
+    simp only []
+    have h4 : (j0 : Int) + 1 = ((j0 + 1 : Nat) : Int) := by omega
+    rw [h4, ih (out ++ [prev ||| shl32 (Bits.rev32 w) sh]) (Bits.rev32 w >>> (32 - sh)) T (j0 + 1) (by omega) (by simp; omega)]
+    simp [WMat.realignLoop]
+
+theorem realignRow_length (sh : Nat) (row : List Nat) : (WMat.realignRow sh row).length = row.length := by
+  cases row with
+  | nil => rfl
+  | cons w rest => simp [WMat.realignRow, realignLoop_length]
+
+/-- the loop over the rows of `Rotate180` (`shift ≠ 0`) is the model's `mapRows` -/
+theorem rows_loop (rs sh : Nat) (body : Int → List Int → Ctl (List Int) ρ)
+    (hb : ∀ (i : Nat) (done row later : List Nat), done.length = rs * i → row.length = rs →
+      body (i : Int) (words (done ++ row ++ later)) = .next (words (done ++ WMat.realignRow sh row ++ later))) :
+    ∀ (h i0 : Nat) (done ws : List Nat), done.length = rs * i0 → ws.length = rs * h →
+      loop body 1 h (i0 : Int) (words (done ++ ws)) =
+        .next (words (done ++ WMat.mapRows rs (WMat.realignRow sh) h ws)) := by
+  intro h
+  induction h with
+  | zero => intro i0 done ws _ _; simp [loop, WMat.mapRows]
+  | succ h ih =>
+    intro i0 done ws hd hw
+    have hsplit : ws = ws.take rs ++ ws.drop rs := (List.take_append_drop rs ws).symm
+    have htl : (ws.take rs).length = rs := by
+      rw [List.length_take, hw, Nat.mul_succ]; omega
+    rw [loop_succ]
+    have := hb i0 done (ws.take rs) (ws.drop rs) hd htl
+    rw [List.append_assoc, ← hsplit] at this
+    rw [this]
+    simp only []
+    have e : (i0 : Int) + 1 = ((i0 + 1 : Nat) : Int) := by omega
+    have := ih (i0 + 1) (done ++ WMat.realignRow sh (ws.take rs)) (ws.drop rs)
+      (by rw [List.length_append, realignRow_length, htl, hd, Nat.mul_succ])
+      (by rw [List.length_drop, hw, Nat.mul_succ]; omega)
+    rw [List.append_assoc] at this
+    rw [e, List.append_assoc, this]
+    simp [WMat.mapRows]
+
+theorem foldlM_length_words {α : Type} (f : List Nat → α → Res (List Nat))
+    (hf : ∀ ws a ws', f ws a = .ok ws' → ws'.length = ws.length) :
+    ∀ (l : List α) (ws ws' : List Nat), l.foldlM f ws = .ok ws' → ws'.length = ws.length := by
+  intro l
+  induction l with
+  | nil => intro ws ws' h; simp only [List.foldlM, pure, Except.pure] at h; injection h with h; rw [h]
+  | cons a l ih =>
+    intro ws ws' h
+    simp only [List.foldlM, bind, Except.bind] at h
+    cases hfa : f ws a with
+    | error e => rw [hfa] at h; cases h
+    | ok w1 => rw [hfa] at h; rw [ih w1 ws' h, hf ws a w1 hfa]
+
+theorem setWord_len {ws ws' : List Nat} {i v : Nat} (h : setWord ws i v = .ok ws') : ws'.length = ws.length := by
+  unfold setWord at h
+  by_cases hl : i < ws.length
+  · rw [if_pos hl] at h; injection h with h; rw [← h, List.length_set]
+  · rw [if_neg hl] at h; cases h
+
+theorem swapWords_len {ws ws' : List Nat} {i j : Nat} (h : WMat.swapWords ws i j = .ok ws') : ws'.length = ws.length := by
+  unfold WMat.swapWords wordAt at h
+  cases hi : ws[i]? with
+  | none => rw [hi] at h; cases h
+  | some a =>
+    cases hj : ws[j]? with
+    | none => rw [hi, hj] at h; cases h
+    | some b =>
+      rw [hi, hj] at h
+      simp only [bind, Except.bind] at h
+      cases h1 : setWord ws i b with
+      | error e => rw [h1] at h; cases h
+      | ok w1 =>
+        rw [h1] at h
+        rw [setWord_len h, setWord_len h1]
+
+end rotate180
+
+when_kernel Gzx.Gen.K16b.matrixRotate180 in
+/-- `BitMatrix.Rotate180()` = `WMat.rotate180` on a matrix with `len(bits) = rowSize*height` and `rowSize ≥ 1` (part of the
+    representation invariant): the word swaps of the row pairs and of the middle row (odd height), then — `width%32 ≠ 0` — per
+    row the fused `Reverse32` + realignment by `shift` bits (in place: `bits[offset+j-1] |= cur << shift; bits[offset+j] = cur >>
+    (32-shift)`), or — `width%32 = 0` — `Reverse32` of every word -/
+theorem k_matrixRotate180_eq (m : WMat) (hlen : m.words.length = m.rowSize * m.height) (hrs : 1 ≤ m.rowSize) :
+    Gen.K16b.matrixRotate180 m.width m.height m.rowSize (words m.words) = expW (WMat.rotate180 m) := by
+  simp only [Gen.K16b.matrixRotate180, WMat.rotate180, WMat.rotate180Swap, expW]
+  generalize hF1 : (fun (ws : List Nat) (i : Nat) => (List.range m.rowSize).foldlM
+      (fun ws j => WMat.swapWords ws (i * m.rowSize + j) ((m.height - i) * m.rowSize - 1 - j)) ws) = F1
+  have hh2 : Int.tdiv (m.height : Int) 2 = ((m.height / 2 : Nat) : Int) := by gonorm; omega
+  rw [List.range_eq_range', hh2, loop_up_fold' words F1 0 (m.height / 2) m.words rfl (by rw [tripUp_one]; omega) (by omega), ofRes_thenR]
+  · cases hf1 : (List.range' 0 (m.height / 2)).foldlM F1 m.words with
+    | error e => rfl
+    | ok ws1 =>
+      simp only [Except.map]
+      have hl1 : ws1.length = m.words.length := by
+        subst hF1
+        exact foldlM_length_words _ (fun ws i ws' h => foldlM_length_words _ (fun ws j ws' h => swapWords_len h) _ _ _ h) _ _ _ hf1
+      -- the middle row (odd height)
+      generalize hF2 : (fun (ws : List Nat) (j : Nat) => WMat.swapWords ws (m.rowSize * (m.height - 1) / 2 + j)
+          (m.rowSize * (m.height - 1) / 2 + m.rowSize - 1 - j)) = F2
+      have hmid : ∀ (k : List Int → Res (List Int)),
+          (((if (Int.tmod (m.height : Int) 2 != 0) = true then
+              (loop (Gen.K16b.matrixRotate180_body3 (m.rowSize : Int) (Int.tdiv ((m.rowSize : Int) * ((m.height : Int) - 1)) 2)) 1
+                (tripUp 0 (Int.tdiv (m.rowSize : Int) 2) 1) 0 (words ws1)).thenC fun st => Ctl.next st
+            else Ctl.next (words ws1) : Ctl (List Int) (List Int))).thenR k) =
+          match (if m.height % 2 ≠ 0 then (List.range (m.rowSize / 2)).foldlM F2 ws1 else .ok ws1) with
+          | .ok ws2 => k (words ws2)
+          | .error e => .error e := by
+        intro k
+        by_cases hodd : m.height % 2 ≠ 0
+        · have hc : (Int.tmod (m.height : Int) 2 != 0) = true := by gonorm; simp; omega
+          have hoff : Int.tdiv ((m.rowSize : Int) * ((m.height : Int) - 1)) 2 = ((m.rowSize * (m.height - 1) / 2 : Nat) : Int) := by
+            have h1 : ((m.height : Int) - 1) = ((m.height - 1 : Nat) : Int) := by omega
+            rw [h1, ← Int.natCast_mul]; gonorm; omega
+          have hr2 : Int.tdiv (m.rowSize : Int) 2 = ((m.rowSize / 2 : Nat) : Int) := by gonorm; omega
+          simp only [hc, if_true, hodd, ne_eq, not_false_eq_true]
+          rw [hoff, hr2, List.range_eq_range', loop_up_fold' words F2 0 (m.rowSize / 2) ws1 rfl (by rw [tripUp_one]; omega) (by omega),
+            ofRes_thenC_next, ofRes_thenR]
+          · cases (List.range' 0 (m.rowSize / 2)).foldlM F2 ws1 <;> rfl
+          · subst hF2
+            intro j _ hj ws
+            simp only [Gen.K16b.matrixRotate180_body3]
+            rw [swapC ws (m.rowSize * (m.height - 1) / 2 + j) (m.rowSize * (m.height - 1) / 2 + m.rowSize - 1 - j) _
+              (by omega) (by omega) (by omega) (by omega)]
+            cases WMat.swapWords ws _ _ <;> rfl
+        · have hc : (Int.tmod (m.height : Int) 2 != 0) = false := by gonorm; simp; omega
+          simp only [hc, Bool.false_eq_true, if_false, hodd, next_thenR]
+      rw [hmid]
+      cases hm2 : (if m.height % 2 ≠ 0 then (List.range (m.rowSize / 2)).foldlM F2 ws1 else .ok ws1) with
+      | error e => rfl
+      | ok ws2 =>
+        have hl2 : ws2.length = m.rowSize * m.height := by
+          rw [← hlen, ← hl1]
+          by_cases hodd : m.height % 2 ≠ 0
+          · rw [if_pos hodd] at hm2
+            subst hF2
+            exact foldlM_length_words _ (fun ws j ws' h => swapWords_len h) _ _ _ hm2
+          · rw [if_neg hodd] at hm2; injection hm2 with hm2; rw [hm2]
+        simp only []
+        have hsh : wrap 64 (Int.tmod (m.width : Int) 32) = ((m.width % 32 : Nat) : Int) := by gonorm; omega
+        rw [hsh]
+        by_cases hs : m.width % 32 = 0
+        · have hc : (((m.width % 32 : Nat) : Int) != 0) = false := by simp; omega
+          simp only [hc, Bool.false_eq_true, if_false]
+          rw [if_neg (by simp [hs])]
+          rw [loop_up_fold' words (fun ws i => updWord ws i Bits.rev32) 0 ws2.length ws2 rfl
+                (by rw [tripUp_one]; gonorm; omega) (by omega), foldlM_updWord_all]
+          · rfl
+          · intro i _ _ ws
+            simp only [Gen.K16b.matrixRotate180_body6]
+            rw [updC ws i Bits.rev32 _ rfl rfl (fun w => rev32_natCast w)]
+            cases updWord ws i _ <;> rfl
+        · have hc : (((m.width % 32 : Nat) : Int) != 0) = true := by simp; omega
+          simp only [hc, if_true]
+          rw [if_pos (by simpa using hs)]
+          have := rows_loop (ρ := List Int) m.rowSize (m.width % 32)
+            (Gen.K16b.matrixRotate180_body4 (m.rowSize : Int) ((m.width % 32 : Nat) : Int)) ?_ m.height 0 [] ws2 (by simp) hl2
+          · simp only [List.nil_append] at this
+            rw [show tripUp 0 (m.height : Int) 1 = m.height by rw [tripUp_one]; omega, show (0 : Int) = ((0 : Nat) : Int) from rfl, this]
+            rfl
+          · intro i done row later hd hr
+            simp only [Gen.K16b.matrixRotate180_body4]
+            obtain ⟨w0, rest, rfl⟩ : ∃ w0 rest, row = w0 :: rest := by
+              cases row with
+              | nil => simp at hr; omega
+              | cons w0 rest => exact ⟨w0, rest, rfl⟩
+            have hoff : (m.rowSize : Int) * (i : Int) = ((done.length : Nat) : Int) := by rw [hd]; simp
+            rw [hoff, idxC (done ++ w0 :: rest ++ later) done.length _ rfl]
+            have hg : wordAt (done ++ w0 :: rest ++ later) done.length = .ok w0 := by simp [wordAt]
+            rw [hg]
+            simp only []
+            have hv : ishr (GoM.rev32 (w0 : Int)) (wrap 64 (32 - ((m.width % 32 : Nat) : Int))) =
+                ((Bits.rev32 w0 >>> (32 - m.width % 32) : Nat) : Int) := by
+              rw [show wrap 64 (32 - ((m.width % 32 : Nat) : Int)) = ((32 - m.width % 32 : Nat) : Int) by gonorm; omega,
+                rev32_natCast, ishr_natCast]
+            rw [setC (done ++ w0 :: rest ++ later) done.length (Bits.rev32 w0 >>> (32 - m.width % 32)) _ rfl hv]
+            have hset : setWord (done ++ w0 :: rest ++ later) done.length (Bits.rev32 w0 >>> (32 - m.width % 32)) =
+                .ok (done ++ (Bits.rev32 w0 >>> (32 - m.width % 32)) :: rest ++ later) := by simp [setWord]
+            rw [hset]
+            simp only []
+            have hrl : rest.length = m.rowSize - 1 := by simp at hr; omega
+            have key := realign_row_loop (ρ := List Int) (m.width % 32) done.length
+              (Gen.K16b.matrixRotate180_body5 ((done.length : Nat) : Int) ((m.width % 32 : Nat) : Int)) ?_ rest done
+              (Bits.rev32 w0 >>> (32 - m.width % 32)) later 1 (by omega) (by omega)
+            · rw [show ((1 : Nat) : Int) = 1 from rfl] at key
+              rw [show tripUp 1 (m.rowSize : Int) 1 = rest.length by rw [tripUp_one]; omega, key]
+              simp [WMat.realignRow]
+            · intro j ws hj
+              simp only [Gen.K16b.matrixRotate180_body5]
+              rw [idxC ws (done.length + j) _ (by omega)]
+              unfold wordAt
+              cases ws[done.length + j]? with
+              | none => rfl
+              | some w =>
+                simp only [rev32_natCast]
+                rw [updC ws (done.length + j - 1) (fun v => v ||| shl32 (Bits.rev32 w) (m.width % 32)) _ (by omega) (by omega)
+                  (fun v => by rw [ishl_natCast, wrap_natCast, ior_natCast]; rfl)]
+                cases updWord ws (done.length + j - 1) _ with
+                | error e => rfl
+                | ok ws1 =>
+                  simp only []
+                  rw [setC ws1 (done.length + j) (Bits.rev32 w >>> (32 - m.width % 32)) _ (by omega)
+                    (by rw [show wrap 64 (32 - ((m.width % 32 : Nat) : Int)) = ((32 - m.width % 32 : Nat) : Int) by gonorm; omega,
+                      ishr_natCast])]
+                  cases setWord ws1 _ _ <;> rfl
+  · subst hF1
+    intro i _ hi ws
+    simp only [Gen.K16b.matrixRotate180_body1]
+    rw [List.range_eq_range', loop_up_fold' words (fun ws j => WMat.swapWords ws (i * m.rowSize + j) ((m.height - i) * m.rowSize - 1 - j))
+      0 m.rowSize ws rfl (by rw [tripUp_one]; omega) (by omega), ofRes_thenC_next]
+    intro j _ hj ws
+    simp only [Gen.K16b.matrixRotate180_body2]
+    have hmul : m.rowSize ≤ (m.height - i) * m.rowSize := Nat.le_mul_of_pos_left _ (by omega)
+    have hbot : ((m.height : Int) - (i : Int)) * (m.rowSize : Int) - 1 - (j : Int) =
+        (((m.height - i) * m.rowSize - 1 - j : Nat) : Int) := by
+      have h1 : ((m.height : Int) - (i : Int)) = ((m.height - i : Nat) : Int) := by omega
+      rw [h1, ← Int.natCast_mul]; omega
+    rw [swapC ws (i * m.rowSize + j) ((m.height - i) * m.rowSize - 1 - j) _ hbot (by omega) (by omega) hbot]
+    cases WMat.swapWords ws _ _ <;> rfl
+
+/-- non-vacuity of `k_matrixRotate180_eq`: 33x3 (odd height, two words per row, `width%32 ≠ 0`) -/
+example : ∃ m : WMat, m.words.length = m.rowSize * m.height ∧ 1 ≤ m.rowSize ∧ m.height % 2 ≠ 0 ∧ m.width % 32 ≠ 0 ∧
+    (WMat.rotate180 m).isOk :=
+  ⟨⟨33, 3, 2, [1, 0, 2, 1, 4, 0]⟩, by decide, by decide, by decide, by decide, by decide⟩
+
 end Gzx.Obligations.K16bMat
